@@ -73,6 +73,7 @@ func c02(tier string) int {
 	plans := []seq.Plan{
 		{Family: "iso", Params: "keys=1,slots=2", From: 1, To: 6},
 		{Family: "iso", Params: "keys=2,slots=2,deflevel=1", From: 1, To: 5},
+		{Family: "iso", Params: "keys=1,slots=2,levels=RC.RR,create=1", From: 1, To: 4},
 	}
 	if tier == "thorough" {
 		plans = []seq.Plan{
